@@ -696,6 +696,64 @@ def gen_C20(tier, seed):
     return {"reqs": reqs, "certs": [], "gen": g, "needs_consts": ["meta"], "needs_cpu": True}
 
 
+def gen_C19(tier, seed):
+    g = Gen(seed)
+    q = tier == "quick"
+    cf = ["nc.d.1.0.b", "nc.0.1.0.b", "c.d.1.0.b", "c.0.0.0.b", "c.9.1.0.b", "dfa.d.1.0.b", "dfa.d.0.0.u",
+          "tnc.d.1.0.b", "tc.d.1.0.u", "tdfa.d.1.0.u", "auto.d.1.0.u", "auto.d.1.0.b",
+          "nc.d.1.1.b", "c.d.1.1.b", "dfa.d.1.1.u", "auto.d.1.1.u", "auto.d.1.1.b"]
+    reqs = []
+
+    def families():
+        k = g.rng.choice(["akb", "akb_only", "sufchain", "casey", "nest", "tiny", "pre"])
+        g.note("cost:" + k)
+        if k == "akb":
+            return g.akb()
+        if k == "akb_only":
+            n = g.rng.randint(3, 12)
+            return [b"a" * n + b"b"]
+        if k == "sufchain":
+            return g.suffix_chain()
+        if k == "casey":
+            return g.casey()
+        if k == "nest":
+            return g.nest()
+        if k == "pre":
+            return pre_pats(g)
+        return g.tiny()
+
+    for _ in range(300 if q else 4000):
+        pats = families()
+        mk = g.rng.choice(["std", "lf", "ll"])
+        fold = g.rng.random() < 0.2
+        for _ in range(2):
+            r = g.rng.random()
+            if r < 0.4:
+                # force the longest chains: a^n then a foreign byte, repeated
+                n = g.rng.randint(1, 30)
+                hay = (b"a" * n + g.rng.choice([b"c", b"b", b"x"])) * g.rng.randint(1, 3)
+            elif r < 0.6:
+                hay = pre_hay(g, pats, fold)
+            else:
+                hay = g.hay(pats, 30, fold)
+            s, e = g.span(len(hay))
+            kv = {"api": "find", "mk": mk, "pats": hxlist(pats), "hay": hx(hay), "s": s, "e": e}
+            if fold:
+                kv["fold"] = 1
+            if g.rng.random() < 0.2:
+                kv["anch"] = 1
+            if g.rng.random() < 0.15:
+                kv["earliest"] = 1
+            kv["cfgs"] = cfgs(cf)
+            reqs.append(fmt_req("cost", kv))
+    allc = ["nc.d.1.0.b", "nc.0.1.0.b", "c.d.1.0.b", "c.0.0.0.b", "c.2.1.0.b", "c.9.0.0.b", "dfa.d.1.0.b", "dfa.d.0.0.u"]
+    certs = _fixed_certs(["std", "lf", "ll"], CORPUS_LISTS + [[b"a" * 8 + b"b"], [b"aaab", b"aab", b"ab", b"b"]], cfgl=allc)
+    certs += _certs(g, 40 if q else 500, ["std", "lf", "ll"], fold=0.25,
+                    pat_kinds=["tiny", "tiny3", "nest", "akb", "suffix_chain", "casey", "fanout_small"], cfgl=allc)
+    return {"reqs": reqs, "certs": certs, "first": "bykind", "gen": g, "needs_consts": ["cost"], "needs_cpu": True,
+            "failsmode": True, "modes": "0"}
+
+
 TOP_APIS = ["is_match", "find", "find_overlapping", "find_iter", "find_overlapping_iter", "replace_all",
             "replace_all_bytes", "replace_all_with", "replace_all_with_bytes", "stream_find_iter",
             "try_find", "try_find_overlapping", "try_find_iter", "try_find_overlapping_iter", "try_replace_all",
@@ -737,5 +795,5 @@ def gen_C13(tier, seed):
     return {"reqs": reqs, "certs": [], "gen": g, "exhaustive": True}
 
 
-GENS = {"C13": gen_C13, "C20": gen_C20, "C06": gen_C06, "C05": gen_C05, "C10": gen_C10, "C07": gen_C07, "C08": gen_C08, "C18": gen_C18, "C12": gen_C12, "C01": gen_C01, "C02": gen_C02, "C03": gen_C03, "C04": gen_C04, "C09": gen_C09,
+GENS = {"C13": gen_C13, "C19": gen_C19, "C20": gen_C20, "C06": gen_C06, "C05": gen_C05, "C10": gen_C10, "C07": gen_C07, "C08": gen_C08, "C18": gen_C18, "C12": gen_C12, "C01": gen_C01, "C02": gen_C02, "C03": gen_C03, "C04": gen_C04, "C09": gen_C09,
         "C11": gen_C11, "C14": gen_C14, "C16": gen_C16}
